@@ -22,6 +22,9 @@ func MessageKey(msg []byte) []byte {
 }
 
 func Encrypt(msg, key []byte) ([]byte, error) {
+	if err := checkAuthKey(key, false); err != nil {
+		return nil, err
+	}
 	msgKey := MessageKey(msg)
 	aesKey, aesIV := generateAESIGE(msgKey, key, false)
 
@@ -44,6 +47,9 @@ func Encrypt(msg, key []byte) ([]byte, error) {
 
 // checkData это msgkey в понятиях мтпрото, нужно что бы проверить, успешно ли прошла расшифровка
 func Decrypt(msg, key, checkData []byte) ([]byte, error) {
+	if err := checkAuthKey(key, true); err != nil {
+		return nil, err
+	}
 	aesKey, aesIV := generateAESIGE(checkData, key, true)
 
 	c, err := NewCipher(aesKey, aesIV)
@@ -57,6 +63,20 @@ func Decrypt(msg, key, checkData []byte) ([]byte, error) {
 	}
 
 	return out, nil
+}
+
+// checkAuthKey refuses an auth key the key derivation cannot work with (it reads 128 bytes of it from offset 0
+// or 8): without a key — before the key exchange has finished, or with a damaged session file — a packet
+// must be refused with an error, not end the program in generateAESIGE
+func checkAuthKey(key []byte, decode bool) error {
+	need := 96 + 32
+	if decode {
+		need += 8
+	}
+	if len(key) < need {
+		return ErrAuthKeyTooShort
+	}
+	return nil
 }
 
 func doAES256IGEencrypt(data, out, key, iv []byte) error {
